@@ -1,42 +1,412 @@
 """C16 -- the other generated systems keep their specs' safety invariants.
 
-Per system (dqueue, loadbalancer, proxy, shcounter, gcounter, shopcart, nestedcrdtimpl, replicatedkv -- as far
-as bound in /verif/systems/*.json): TLC on the shipped spec with its invariants (design level); the complete
-state graph reached by the generated archetypes on small instances and seeded executions under the real
-MPCalContext.Run on larger ones, with the spec's invariants and action properties evaluated by TLC in every
-real-code state; an assertion of the specification that fails in the generated code is a violation.
-"""
-import os
-import vcommon as V
-import sysrun as S
+Per system (dqueue, loadbalancer, proxy, shcounter, gcounter, shopcart, nestedcrdtimpl; replicatedkv is not bound):
 
-SYSTEMS = ["dqueue", "loadbalancer", "proxy", "shcounter", "gcounter", "shopcart", "nestedcrdtimpl", "replicatedkv"]
-# property-level observers (spec/C16/<Module>.tla EXTENDS the system's spec): name -> (module, extra invariants, hist_step, init, reset)
-OBS = {}
+ spec      the repository's own .tla (regenerated with pcal where the table says so) + an observer module
+           spec/C16/<Sys>Obs.tla that EXTENDS it and states the clauses of the property the shipped spec does
+           not name, with history variables that are a function of the step (HInit / HStep / HNext == Next /\\ HStep).
+ design    TLC exhaustive on the observer over the shipped spec (HInit/HNext, the spec's invariants + the observer's,
+           a state constraint on the history where the system never terminates). Failing `assert`s of the
+           specification surface here as TLC errors. Witness runs (expected violations) show that the
+           antecedents of implications are reachable (proxy).
+ binding   the generated archetypes of systems/<sys>/<sys>.go run over spec-state env resources
+           (harness/internal/mpexec + sysdefs): (a) the state graph reached with the real archetype code from the
+           initial state (fresh context per step, every choice resolution; complete on the small instances, a BFS
+           prefix where the graph is infinite), validated as edge-covering walks; (b) seeded executions under the
+           real MPCalContext.Run behind the scheduler gate on larger instances. The recorded real-code states are
+           taken as they are (P-level mode) and TLC evaluates every invariant in every one of them, the history
+           variables following HStep. A Go-side assertion failure / panic is a violation (go-error).
+ verdicts  a real-code state that violates an invariant -> VIOLATION (or KNOWN-FINDING); a design-level
+           counterexample alone is never a verdict: the invariant is dropped from that design run, and unless the
+           generated code reproduces the violation the run is INCONCLUSIVE.
+
+The plans (instance sizes, bounds, runs) are the "c16" section of /verif/systems/<name>.json.
+VERIF_SYSTEMS=a,b restricts the run; VERIF_PAR sets the number of parallel jobs (default 8).
+"""
+import concurrent.futures
+import os
+import re
+import time
+
+import sysrun as S
+import tracegen as T
+import vcommon as V
+
+SYSTEMS = ["nestedcrdtimpl", "proxy", "loadbalancer", "shopcart", "dqueue", "gcounter", "shcounter", "replicatedkv"]
+
+# property-level observers: spec/C16/<module>.tla EXTENDS the system's spec.
+#   invariants  state predicates over (vars, history) stated by the observer
+#   reset       how the history variables restart when the trace module concatenates executions
+#   labels      labels that must have been executed by the generated code for the invariants to say anything
+#   witnesses   predicates expected to be VIOLATED (reachability of antecedents): design level, and on the Go executions
+OBS = {
+    "dqueue": {
+        "module": "DqueueObs",
+        "invariants": ["BufferBound", "HandedInProductionOrder", "HandedToRequester", "TakenOnceInOrder", "ProcessedAsTaken"],
+        "reset": "/\\ zreqs' = <<>> /\\ zhanded' = <<>> /\\ ztaken' = <<>> /\\ zproc' = <<>> /\\ zprod' = 0",
+        "labels": ["c1", "c2", "p1", "p2"],
+    },
+    "loadbalancer": {
+        "module": "LoadBalancerObs",
+        "invariants": ["ForwardedOnce", "AnsweredByItsServer", "AnsweredAtMostOnce"],
+        "reset": "/\\ zreqs' = <<>> /\\ zfwds' = <<>> /\\ zans' = <<>>",
+        "labels": ["clientRequest", "rcvMsg", "sendServer", "rcvReq", "sendPage", "clientReceive"],
+    },
+    "proxy": {
+        "module": "ProxyObs",
+        "invariants": ["FailOnlyWhenAllFailed", "PerfectDetector"],
+        "reset": "/\\ zfailok' = TRUE /\\ zfails' = 0 /\\ zoks' = 0",
+        "labels": ["proxyLoop", "serversLoop", "proxyRcvMsg", "sendMsgToClient", "serverSendMsg", "failLabel", "clientRcvResp"],
+        "witnesses": ["ZNoFailReported", "ZNoOkReported", "ZNoFailPending"],
+    },
+    "shcounter": {
+        "module": "ShcounterObs",
+        "invariants": ["FinalValue", "DoneOnlyAtFinalValue", "NeverExceeds", "NeverDecreases", "CountsUpdates"],
+        "reset": "/\\ zprev' = 0",
+        "labels": ["update", "wait"],
+    },
+    "gcounter": {
+        "module": "GcounterObs",
+        "invariants": ["EqualKnowledgeEqualReads", "CountersNeverDecrease", "NoInventedIncrements"],
+        "reset": "/\\ zprev' = localcntrs'",
+        "labels": ["update", "wait", "l1"],
+    },
+    "shopcart": {
+        "module": "ShopcartObs",
+        "invariants": ["EqualKnowledgeEqualReads", "CountersNeverDecrease"],
+        "reset": "/\\ zprev' = crdt'",
+        "labels": ["add", "waitAdd", "l1"],
+    },
+    "nestedcrdtimpl": {
+        "module": "NestedCRDTObs",
+        "invariants": ["MonotonicStateInv", "ViewNeverDecreases", "StateIsKnowledge", "EqualKnowledgeEqualReads", "NoInventedIncrements",
+                       "BufferBound", "ViewBoundedByWrites"],
+        "reset": "/\\ zprev' = state' /\\ zpend' = [zr \\in RESOURCE_IDS |-> 0] /\\ zown' = [zr \\in RESOURCE_IDS |-> 0] /\\ zknow' = [zr \\in RESOURCE_IDS |-> {}]",
+        "labels": ["receiveReq", "writeReq", "commitReq", "commitAck"],
+    },
+}
+
+def cover_walks(g, maxlen=300, budget=12000):
+    """Walks from the initial state of the explored graph that together cover its edges (as many as fit in
+    `budget` states). A walk goes on through already covered edges to the nearest uncovered one (BFS), so
+    cyclic graphs are covered by few long walks instead of one restart per edge. Returns (walks as lists of
+    state texts, number of edges covered, number of edges)."""
+    out = {}
+    for (u, v, _) in g["edges"]:
+        out.setdefault(u, []).append(v)
+    uncovered = {(u, v) for (u, v, _) in g["edges"]}
+    nedges = len(uncovered)
+
+    def nearest(src):
+        # shortest path (list of nodes after src) from src to the tail of an uncovered edge, then through it
+        prev, queue, qi = {src: None}, [src], 0
+        while qi < len(queue):
+            u = queue[qi]; qi += 1
+            for v in out.get(u, []):
+                if (u, v) in uncovered:
+                    path = [v]
+                    while u != src:
+                        path.append(u); u = prev[u]
+                    return list(reversed(path))
+                if v not in prev:
+                    prev[v] = u
+                    queue.append(v)
+        return None
+
+    walks, used = [], 0
+    while uncovered and used < budget:
+        path = [0]
+        while len(path) < maxlen:
+            ext = nearest(path[-1])
+            if ext is None or (len(path) + len(ext) > maxlen and len(path) > 1):
+                break
+            for a, b in zip([path[-1]] + ext, ext):
+                uncovered.discard((a, b))
+            path += ext
+        if len(path) == 1:
+            break      # nothing uncovered is reachable from the initial state any more
+        walks.append([g["states"][i] for i in path])
+        used += len(path)
+    return walks, nedges - len(uncovered), nedges
+
+
+INV_RE = re.compile(r"(?:Invariant|Action property) (\w+) is violated")
+
+
+def _cfg(cs, init, nxt, invs, props=(), constraint=None):
+    body = "CONSTANTS\n" + "".join("  %s = %s\n" % kv for kv in cs.items())
+    body += "INIT %s\nNEXT %s\nCHECK_DEADLOCK FALSE\n" % (init, nxt)
+    body += "".join("INVARIANT %s\n" % i for i in invs) + "".join("PROPERTY %s\n" % p for p in props)
+    if constraint:
+        body += "CONSTRAINT %s\n" % constraint
+    return body
+
+
+class System:
+    """One generated system: its prepared spec directory and the jobs (design / graph / run) that are run side by side."""
+
+    def __init__(self, chk, name, table, drv):
+        self.chk, self.name, self.drv = chk, name, drv
+        t = dict(table)
+        # ProxyOK holds with the perfect failure detector only: the PlusCal is rewritten to the PerfectFD read before pcal
+        t["spec_rewrites"] = list(t.get("spec_rewrites", [])) + list(t.get("invariant_spec_rewrites", []))
+        self.table = t
+        self.obs = OBS[name]
+        self.work = os.path.join(chk.tmp, "c16-" + name)
+        self.text = S.prepare_spec(chk, t, self.work)
+        V.copy_specs(os.path.join(V.SPEC, "C16"), self.work, names=[self.obs["module"] + ".tla"])
+        self.variables = T.extract_vars(self.text)
+        self.module = self.obs["module"]
+        self.spec_invs = list(t.get("invariants", []))
+        self.invs = self.spec_invs + list(self.obs["invariants"])
+        self.props = list(t.get("properties", []))   # action properties of the spec: design level only (the observer restates them over zprev)
+        self.plan = t.get("c16", {}).get(chk.tier, {})
+        self.inv_args = t.get("invariant_args", "")
+        self.design_cex = {}      # invariant -> TLC text (model-level counterexamples)
+        self.reproduced = set()   # invariants violated by a real-code state
+        self.labels = {}          # label -> committed steps of the generated code
+        self.stats = {"design": [], "graph": [], "run": [], "witness": []}
+
+    def consts(self, cfg):
+        d = S._args_dict(cfg.get("args", ""))
+        d.update(S._args_dict(self.inv_args))
+        args = ",".join("%s=%s" % kv for kv in d.items())
+        return args, S.subst_consts(self.table, cfg["n"], args, cfg.get("consts_override"))
+
+    @staticmethod
+    def chunks(cfg, nstates):
+        """TLC processes per validation: one per ~2500 recorded states (JVM start-up dominates small jobs), at most cfg["chunks"]."""
+        return max(1, min(cfg.get("chunks", 2), 1 + nstates // 2500))
+
+    # ---- design level
+    def design(self, chk, i, cfg):
+        args, cs = self.consts(cfg)
+        invs = list(self.invs)
+        what = "%s design n=%d %s" % (self.name, cfg["n"], args)
+        for attempt in range(4):
+            cfgname = "c16_design_%d_%d.cfg" % (i, attempt)
+            open(os.path.join(self.work, cfgname), "w").write(_cfg(cs, "HInit", "HNext", invs, self.props, cfg.get("constraint")))
+            r = V.tlc(self.work, self.module, cfg=cfgname, workers=cfg.get("workers", 3), timeout=cfg.get("timeout", 1500), deadlock=False)
+            m = INV_RE.search(r.violation or "")
+            if m and m.group(1) in invs and not r.timed_out and not r.error:
+                # a model-level counterexample is not a verdict: note it, go on without that invariant; the Go must reproduce it
+                chk.add_tlc(what + " [counterexample to %s]" % m.group(1), r, expect_violation=True)
+                self.design_cex[m.group(1)] = "%s: %s" % (what, r.violation)
+                invs.remove(m.group(1))
+                continue
+            chk.add_tlc(what + " exhaustive %s" % (invs + self.props), r)
+            self.stats["design"].append({"n": cfg["n"], "args": args, "constraint": cfg.get("constraint"), "distinct": r.distinct, "depth": r.depth,
+                                         "ok": r.ok, "invariants": len(invs)})
+            break
+        # witnesses: each predicate must be violated somewhere (the antecedents are reachable in the design)
+        def witness(w):
+            cfgname = "c16_witness_%d_%s.cfg" % (i, w)
+            open(os.path.join(self.work, cfgname), "w").write(_cfg(cs, "HInit", "HNext", [w], (), cfg.get("constraint")))
+            return w, V.tlc(self.work, self.module, cfg=cfgname, workers=1, timeout=900, deadlock=False)
+
+        ws = self.obs.get("witnesses", []) if cfg.get("witness") else []
+        with concurrent.futures.ThreadPoolExecutor(max_workers=max(1, len(ws))) as ex:
+            results = list(ex.map(witness, ws))
+        for w, r in results:
+            hit = bool(r.violation and w in r.violation)
+            chk.add_tlc("%s witness %s (expected to be violated)" % (what, w), r, expect_violation=True)
+            self.stats["witness"].append({"level": "design", "n": cfg["n"], "witness": w, "reached": hit})
+            if not hit and not r.timed_out and not r.error:
+                chk.inconclusive.append("%s: witness %s is not reachable in the design-level run: the invariant it guards would be vacuous" % (what, w))
+
+    # ---- P-level judgement of recorded real-code states
+    def judge(self, chk, runs, metas, cs, what, chunks):
+        invs = list(self.invs)
+        left = list(range(len(runs)))
+        kw = dict(conform=False, hist_step="HStep", use_init="HInit", reset_extra=self.obs["reset"])
+        total = {"accepted": 0, "passes": 0}
+        while left and total["passes"] < 6:
+            total["passes"] += 1
+            res = T.validate_runs(self.work, self.module, self.variables, [runs[i] for i in left], cs, invs, [], chunks=chunks,
+                                  timeout=2400, max_rounds=1, **kw)
+            chk.states += res["states"]; chk.transitions += res["transitions"]
+            if not res["rejected"]:
+                for e in res["errors"]:
+                    chk.inconclusive.append("%s %s: %s" % (self.name, what, e[-600:]))
+                total["accepted"] = res["accepted"]
+                break
+            dropped, removed = set(), set()
+            for rj in res["rejected"]:
+                ri = left[rj["run_index"]]
+                if rj["kind"] == "stuck":
+                    chk.drift.append({"system": self.name, "what": what, "state_index": rj["state_index"], "text": rj["text"]})
+                    dropped.add(ri)
+                    continue
+                m = INV_RE.search(rj["text"])
+                inv = m.group(1) if m else "property"
+                if inv in removed:
+                    continue             # the same invariant rejected in another chunk of this pass: already reported
+                run = runs[ri]
+                st = run[rj["state_index"] - 1] if 0 < rj["state_index"] <= len(run) else None
+                prev = run[rj["state_index"] - 2] if 1 < rj["state_index"] <= len(run) else None
+                self.reproduced.add(inv)
+                chk.violation("C16:%s:%s:%s" % (self.name, inv, what.split()[0]),
+                              "%s (%s): %s in a state reached by the generated code (state %d of the execution)" % (self.name, what, rj["text"], rj["state_index"]),
+                              {"system": self.name, "what": what, "tlc": rj["text"], "state_index": rj["state_index"], "state": st, "previous_state": prev,
+                               "constants": cs, "meta": metas[ri] if metas else None})
+                if inv in invs:
+                    invs.remove(inv)     # reported once; the other invariants are still evaluated on every execution
+                    removed.add(inv)
+                else:
+                    dropped.add(ri)
+            left = [i for i in left if i not in dropped]
+        chk.traces += total["accepted"]
+        return total
+
+    def count_labels(self, lines):
+        for l in lines:
+            if l.get("label") and l.get("e") in ("step", "g-edge"):
+                self.labels[l["label"]] = self.labels.get(l["label"], 0) + 1
+
+    def witness_go(self, chk, runs, cs, what):
+        """Non-vacuity on the real-code side: each witness predicate must be violated by some recorded execution."""
+        kw = dict(conform=False, hist_step="HStep", use_init="HInit", reset_extra=self.obs["reset"])
+        ws = self.obs.get("witnesses", [])
+        tot, sub = 0, []
+        for r in runs:          # reachability needs some executions only: the first ones, up to ~1000 states
+            if sub and tot + len(r) > 1000:
+                break
+            sub.append(r); tot += len(r)
+        runs = sub
+        with concurrent.futures.ThreadPoolExecutor(max_workers=max(1, len(ws))) as ex:
+            results = list(ex.map(lambda w: T.validate_runs(self.work, self.module, self.variables, runs, cs, [w], [], chunks=1, timeout=1500, max_rounds=1, **kw), ws))
+        for w, res in zip(ws, results):
+            chk.states += res["states"]; chk.transitions += res["transitions"]
+            hit = any(w in rj["text"] for rj in res["rejected"])
+            self.stats["witness"].append({"level": "generated code, " + what, "witness": w, "reached": hit})
+            if not hit:
+                chk.gaps.append("%s %s: no recorded execution reaches %s (the implication it guards was not exercised there)" % (self.name, what, w))
+
+    # ---- (a) state graph of the generated code
+    def graph(self, chk, i, cfg):
+        args, cs = self.consts(cfg)
+        n = cfg["n"]
+        out = S.drive(chk, self.drv, self.name, n, "bfs", 0, cfg.get("max_states", 20000), args=args, tag="-c16g%d" % i)
+        g = T.load_graph(out)
+        self.count_labels([e[2] for e in g["edges"]])
+        for e in g["errors"]:
+            chk.violation("C16:%s:go-error:%s" % (self.name, e.get("label")),
+                          "%s n=%d %s: generated code failed (assertion / panic) from a reachable state at label %s: %s" % (self.name, n, args, e.get("label"), e.get("msg")),
+                          dict(e, system=self.name, n=n, args=args, from_state=g["states"].get(e.get("from"))))
+        keep, covered, nedges = cover_walks(g, cfg.get("walk_len", 300), cfg.get("max_walk_states", 6000))
+        tot = sum(len(w) for w in keep)
+        what = "graph n=%d %s" % (n, args)
+        r = self.judge(chk, keep, None, cs, what, self.chunks(cfg, tot))
+        if cfg.get("witness"):
+            self.witness_go(chk, keep, cs, what)
+        if not g["summary"]:
+            raise V.Inconclusive("sysdrv bfs %s wrote no summary" % self.name)
+        self.stats["graph"].append({"n": n, "args": args, "go_states": g["summary"]["states"], "go_edges": g["summary"]["edges"], "complete": g["summary"].get("complete"),
+                                    "walks": len(keep), "edges_covered": covered, "walk_states": tot, "accepted": r["accepted"]})
+        if keep:
+            chk.sample({"system": self.name, "kind": "graph walk", "n": n, "args": args, "first_states": keep[-1][:2]})
+
+    # ---- (b) executions under Run
+    def runs(self, chk, i, cfg):
+        args, cs = self.consts(cfg)
+        n = cfg["n"]
+        out = S.drive(chk, self.drv, self.name, n, cfg.get("policy", "random"), cfg["runs"], cfg["steps"], args=args, tag="-c16r%d" % i)
+        rs = T.load_steps(out)
+        for r in rs:
+            self.count_labels(r["lines"])
+            for e in r["errors"]:
+                chk.violation("C16:%s:go-error:%s" % (self.name, e.get("label")),
+                              "%s n=%d %s: generated code failed during an execution at label %s: %s" % (self.name, n, args, e.get("label"), e.get("msg")),
+                              {"system": self.name, "n": n, "args": args, "meta": r["meta"], "error": e, "schedule": S.schedule_of(r, 400)})
+        what = "run n=%d %s" % (n, args)
+        states = [r["states"] for r in rs]
+        res = self.judge(chk, states, [dict(r["meta"], schedule=S.schedule_of(r, 80)) for r in rs], cs, what, self.chunks(cfg, sum(len(x) for x in states)))
+        if cfg.get("witness"):
+            self.witness_go(chk, states, cs, what)
+        self.stats["run"].append({"n": n, "args": args, "runs": len(rs), "states": sum(len(x) for x in states), "accepted": res["accepted"]})
+        if rs:
+            chk.sample({"system": self.name, "kind": "execution under Run", "n": n, "args": args, "seed": rs[0]["meta"].get("seed"),
+                        "schedule_prefix": S.schedule_of(rs[0], 12)})
+
+    def jobs(self):
+        out = []
+        for i, c in enumerate(self.plan.get("design", [])):
+            out.append(("design", i, c))
+        for i, c in enumerate(self.plan.get("bfs", [])):
+            out.append(("graph", i, c))
+        for i, c in enumerate(self.plan.get("random", [])):
+            out.append(("run", i, c))
+        return out
+
+    def conclude(self, chk):
+        """After all jobs of the system: model-level counterexamples must have been reproduced on the code; coverage of labels."""
+        for inv, text in self.design_cex.items():
+            if inv in self.reproduced:
+                chk.notes.setdefault("design_counterexamples_reproduced_on_code", []).append(text)
+            else:
+                chk.inconclusive.append("%s (model-level counterexample, not reproduced on the generated code)" % text)
+        missing = [l for l in self.obs.get("labels", []) if not self.labels.get(l)]
+        if missing:
+            chk.inconclusive.append("%s: labels never executed by the generated code in this run: %s (the observer's invariants would be vacuous)" % (self.name, missing))
+        self.stats["labels_executed"] = dict(sorted(self.labels.items()))
+        self.stats["invariants"] = {"spec": self.spec_invs + self.props, "observer": self.obs["invariants"]}
 
 
 def run(chk):
+    # dozens of short TLC runs side by side: keep each JVM small (by default every one starts 16 GC threads and a
+    # 14 GB heap; measured on a 2 500-state trace: 81 s CPU / 27 s wall without, 22 s CPU / 17 s wall with these)
+    os.environ.setdefault("JAVA_TOOL_OPTIONS", "-XX:ParallelGCThreads=2 -XX:CICompilerCount=2 -Xmx4g")
     drv = V.build_driver("sysdrv", chk.bindir)
     tables = {t["name"]: t for t in S.load_tables()}
     only = os.environ.get("VERIF_SYSTEMS")
-    stats = {}
+    systems, jobs = {}, []
     for name in SYSTEMS:
         if only and name not in only.split(","):
             continue
         t = tables.get(name)
-        if not t:
+        if not t or name not in OBS or not t.get("c16"):
             chk.gaps.append("system not bound yet: " + name)
             continue
-        if not (t.get("invariants") or t.get("properties") or name in OBS):
-            chk.gaps.append("%s: no named safety invariant in the spec; only assertion outcomes are judged" % name)
-        o = OBS.get(name)
-        if o:
-            stats[name] = S.safety(chk, "C16", t, drv, chk.tier, extra_invariants=o[1], extra_module=o[0], hist_step=o[2], use_init=o[3], reset_extra=o[4])
-        else:
-            stats[name] = S.safety(chk, "C16", t, drv, chk.tier)
-    chk.notes["per_system"] = stats
-    if not stats:
+        try:
+            s = System(chk, name, t, drv)
+        except V.Inconclusive as e:
+            chk.inconclusive.append("%s: %s" % (name, str(e)[:600]))
+            continue
+        systems[name] = s
+        jobs += [(s, kind, i, c) for (kind, i, c) in s.jobs()]
+    if not systems:
         raise V.Inconclusive("no C16 system is bound")
-    chk.assumptions += ["TLC/SANY", "spec-state env resources implement the mapping macros (validated against the spec by C02)",
-                        "proxy's ProxyOK is judged with the perfect failure detector (table invariant_args)"]
-    return chk.finish(rule="per system: TLC exhaustive on the shipped spec's invariants (small instances); complete Go state graph and seeded executions under Run with the invariants evaluated by TLC in every real-code state")
+    # heavy jobs first; all jobs are independent (own fork of chk, own files)
+    jobs.sort(key=lambda j: -j[3].get("weight", 1))
+    walls = {}
+
+    def one(job):
+        s, kind, i, c = job
+        sub = chk.fork()
+        t0 = time.time()
+        try:
+            {"design": s.design, "graph": s.graph, "run": s.runs}[kind](sub, i, c)
+        except V.Inconclusive as e:
+            sub.inconclusive.append("%s %s: %s" % (s.name, kind, str(e)[:600]))
+        return s.name, kind, i, sub, time.time() - t0
+
+    with concurrent.futures.ThreadPoolExecutor(max_workers=int(os.environ.get("VERIF_PAR", "8"))) as ex:
+        for name, kind, i, sub, wall in ex.map(one, jobs):
+            chk.merge(sub)
+            walls["%s/%s%d" % (name, kind, i)] = round(wall, 1)
+    for s in systems.values():
+        s.conclude(chk)
+    chk.exhaustive = all(d["ok"] for s in systems.values() for d in s.stats["design"]) and not chk.inconclusive
+    chk.notes["per_system"] = {n: s.stats for n, s in systems.items()}
+    chk.notes["job_wall_s"] = walls
+    chk.assumptions += ["TLC/SANY/pcal", "spec-state env resources implement the mapping macros (validated against the spec by C02)",
+                        "proxy: the fd mapping is PerfectFD on both sides (table invariant_args fd=1; the PlusCal is rewritten to the PerfectFD read before pcal)",
+                        "nestedcrdtimpl: the CRDT operators are the grow-only counter of the shipped test (table rewrite instantiate-crdt-operators)",
+                        "history variables of the observers are functions of (state, next state); attribution of an answer to a server / of a production to the producer uses the pc the generated code reports"]
+    chk.gaps += ["shcounter: the counter is a plain global here; the 2PC resource of the shipped wiring is C11's subject",
+                 "gcounter/shopcart: the merge processes (UpdateGCntr, UpdateCRDT) are model-only and played by harness actors; the real CRDT resource is C12/C13's subject",
+                 "real TCP mailboxes / failure detector / file system of the shipped tests are not driven here (C06, C19, C01)",
+                 "liveness properties of the specs (ClientsOk, ConsumerAlwaysConsumes, Eventual*, Termination) are out of scope: safety only"]
+    return chk.finish(rule="per system: TLC exhaustive on spec/C16/<Sys>Obs.tla over the shipped spec (its invariants + the observer's); the state graph explored with the generated "
+                           "archetypes (edge-covering walks) and seeded executions under MPCalContext.Run, every recorded real-code state judged by TLC with the same invariants "
+                           "(history variables follow HStep); Go-side assertion failures are violations")
